@@ -2207,3 +2207,90 @@ package sdf
 //@   ensures [the-arc-end-is-a-plain-vertex-afterwards] wasarc ==> p.vlist[ite(r, i + f - 1, i)].vtype == pvNormal
 //@   ensures [the-new-points-are-plain-and-on-the-circle-through-the-previous-vertex-about-the-arc-centre] forall k int :: r && 0 <= k && k < f - 1 ==> p.vlist[i + k].vtype == pvNormal && !p.vlist[i + k].relative && p.vlist[i + k].vertex.Sub(c).Length2() == a.Sub(c).Length2()
 //@ end
+
+// The fillet circle: unit directions a, b to the neighbours, half-angle sine s and
+// cosine c (a.b = cos(theta) = 1 - 2 s^2), tangent length d1 = r c/s, centre
+// distance d2 = r/s along the unit bisector (a+b)/l.
+//@ lemma fillet_circle_touches_both_edges(a v2.Vec, b v2.Vec, s float64, c float64, l float64, r float64)
+//@   property C17
+//@   requires a.Length2() == 1 && b.Length2() == 1
+//@   requires sq(s) + sq(c) == 1 && s > 0 && c > 0
+//@   requires a.Dot(b) == 1 - 2*sq(s)
+//@   requires l >= 0 && sq(l) == a.Add(b).Length2()
+//@   let k = r/(2*c*s)
+//@   let ctr = a.Add(b).MulScalar((r/s)/l)
+//@   let p0 = a.MulScalar(r*c/s)
+//@   let p1 = b.MulScalar(r*c/s)
+//@   assert [bisector-length-is-twice-the-half-angle-cosine] sq(l) == 4*sq(c)
+//@   assert [so] l == 2*c
+//@   assert [centre] ctr.X == k*(a.X + b.X) && ctr.Y == k*(a.Y + b.Y)
+//@   assert [tangent-points] p0.X == k*2*sq(c)*a.X && p0.Y == k*2*sq(c)*a.Y && p1.X == k*2*sq(c)*b.X && p1.Y == k*2*sq(c)*b.Y
+//@   let ca = a.Dot(b)
+//@   assert [radius-vector-to-the-first-tangent-point] p0.X - ctr.X == k*(ca*a.X - b.X) && p0.Y - ctr.Y == k*(ca*a.Y - b.Y)
+//@   assert [radius-vector-to-the-second-tangent-point] p1.X - ctr.X == k*(ca*b.X - a.X) && p1.Y - ctr.Y == k*(ca*b.Y - a.Y)
+//@   assert [sine-squared] 1 - sq(ca) == 4*sq(s)*sq(c)
+//@   assert [k-squared] sq(k)*4*sq(s)*sq(c) == sq(r)
+//@   ensures [first-tangent-point-at-the-radius] p0.Sub(ctr).Length2() == sq(r)
+//@   ensures [radius-perpendicular-to-the-first-edge] p0.Sub(ctr).Dot(a) == 0
+//@   ensures [second-tangent-point-at-the-radius] p1.Sub(ctr).Length2() == sq(r)
+//@   ensures [radius-perpendicular-to-the-second-edge] p1.Sub(ctr).Dot(b) == 0
+//@ end
+
+//@ func Polygon.smoothVertex
+//@   property C17
+//@   id fillet-geometry
+//@   opt trig-quadrants
+//@   requires 0 <= i && i < len(p.vlist) && len(p.vlist) >= 3
+//@   requires p.vlist[i].vtype == pvSmooth ==> p.vlist[i].facets >= 1
+//@   requires forall k int :: 0 <= k && k < len(p.vlist) && k != i ==> p.vlist[k].vertex != p.vlist[i].vertex
+//@   invariant 0 rangeindex >= -1 && rangeindex < len(points)
+//@   let dp = vp.vertex.Sub(v.vertex)
+//@   let dn = vn.vertex.Sub(v.vertex)
+//@   let lp = dp.Length()
+//@   let ln = dn.Length()
+//@   let ca = v0.Dot(v1)
+//@   let sh = sin(theta/2)
+//@   let ch = cos(theta/2)
+//@   let lb = v0.Add(v1).Length()
+//@   assert [edges-have-length] r ==> lp > 0 && ln > 0 && sq(lp) == dp.Length2() && sq(ln) == dn.Length2()
+//@   assert [unit-direction-to-the-previous-vertex] r ==> v0.Length2() == 1
+//@   assert [unit-direction-to-the-next-vertex] r ==> v1.Length2() == 1
+//@   assert [cosine-of-the-corner-angle] r ==> -1 <= ca && ca <= 1
+//@   assert [angle-from-its-cosine] r ==> cos(theta) == ca && 0 <= theta && theta <= PI
+//@   assert [half-angle] r && -1 < ca && ca < 1 ==> sh > 0 && ch > 0 && sq(sh) + sq(ch) == 1 && ca == 1 - 2*sq(sh)
+//@   assert [bisector-length] r ==> lb >= 0 && sq(lb) == v0.Add(v1).Length2()
+//@   use fillet_circle_touches_both_edges(v0, v1, sh, ch, lb, v.radius)
+//@   ensures [tangent-point-on-the-previous-edge-at-the-given-radius-from-the-centre] r && -1 < ca && ca < 1 ==> p0.Sub(c).Length2() == sq(v.radius)
+//@   ensures [where-the-radius-is-perpendicular-to-that-edge] r && -1 < ca && ca < 1 ==> p0.Sub(c).Dot(v0) == 0
+//@   ensures [and-the-centre-is-as-far-from-the-next-edge-touching-it-at-the-same-tangent-length] r && -1 < ca && ca < 1 ==> v.vertex.Add(v1.MulScalar(d1)).Sub(c).Length2() == sq(v.radius) && v.vertex.Add(v1.MulScalar(d1)).Sub(c).Dot(v1) == 0
+//@ end
+
+//@ func BezierVertex.Mid
+//@   property C17
+//@   id marks-midpoint
+//@   ensures [a-control-point-not-on-the-curve] v.vtype == midpoint && r == v && v.vertex == old(v.vertex) && v.handleFwd == old(v.handleFwd) && v.handleRev == old(v.handleRev)
+//@ end
+
+//@ func BezierVertex.HandleFwd
+//@   property C17
+//@   id forward-handle
+//@   requires v.vtype == endpoint
+//@   ensures [polar-handle-of-that-length-and-direction] v.handleFwd == v2.Vec{abs(r), theta} && result == v
+//@   ensures [nothing-else-changes] v.vertex == old(v.vertex) && v.vtype == old(v.vtype) && v.handleRev == old(v.handleRev)
+//@ end
+
+//@ func BezierVertex.HandleRev
+//@   property C17
+//@   id reverse-handle
+//@   requires v.vtype == endpoint
+//@   ensures [polar-handle-of-that-length-and-direction] v.handleRev == v2.Vec{abs(r), theta} && result == v
+//@   ensures [nothing-else-changes] v.vertex == old(v.vertex) && v.vtype == old(v.vtype) && v.handleFwd == old(v.handleFwd)
+//@ end
+
+//@ func BezierVertex.Handle
+//@   property C17
+//@   id slope-handle
+//@   requires v.vtype == endpoint
+//@   ensures [forward-along-theta-reverse-along-the-opposite-direction] v.handleFwd == v2.Vec{abs(fwd), theta} && v.handleRev == v2.Vec{abs(rev), theta + PI} && r == v
+//@   ensures [nothing-else-changes] v.vertex == old(v.vertex) && v.vtype == old(v.vtype)
+//@ end
